@@ -29,15 +29,28 @@ def prepare_util(dst_dir):
         open(cargo, "w").write(t + "\n[workspace]\n")
 
 
+_UTIL_LOCK = __import__("threading").Lock()
+
+
+def ensure_util():
+    """the scratch copy of lexgen_util with the accessors, prepared once per run (callers may be concurrent threads)"""
+    util = os.path.join(C.scratch(), "layerc_util")
+    with _UTIL_LOCK:
+        if not os.path.exists(os.path.join(util, ".prepared")):
+            if os.path.exists(util):
+                shutil.rmtree(util)
+            prepare_util(util)
+            open(os.path.join(util, ".prepared"), "w").write("ok\n")
+    return util
+
+
 def build_crate(name, defs, N, LOGM):
     """-> crate dir.  defs: list of (definition, m, unwind, stub_width)"""
     root = os.path.join(C.scratch(), "layerc_" + name)
     if os.path.exists(root):
         shutil.rmtree(root)
     os.makedirs(os.path.join(root, "src"))
-    util = os.path.join(C.scratch(), "layerc_util")
-    if not os.path.exists(util):
-        prepare_util(util)
+    util = ensure_util()
     open(os.path.join(root, "Cargo.toml"), "w").write('''[package]
 name = "layerc_%s"
 version = "0.0.0"
@@ -92,9 +105,7 @@ def run_defs(defs, tier, timeout=1500, jobs=None, extra_flags=LAYERC_FLAGS):
     for d in defs:
         N, m = settings(d, tier)
         groups.setdefault((N, m), []).append(d)
-    prepare = os.path.join(C.scratch(), "layerc_util")
-    if not os.path.exists(prepare):
-        prepare_util(prepare)
+    ensure_util()
     C.snapshot()
     total_jobs = jobs or C.NCPU
     out = []
